@@ -3,7 +3,12 @@
    against ref/mir_ref.h.  Generated parts (per run, from /repo's working tree): c02_dump.h (mirdump),
    c02_cases.h (tools/gen_c02.py).  One CBMC entry point per case: harness_<case>. */
 #define H_NO_MAIN_HARNESS
+#ifndef H_DUMP
 #define H_DUMP "c02_dump.h"
+#endif
+#ifndef H_CASES
+#define H_CASES "c02_cases.h"
+#endif
 #include "interp_rt.h"
 #include "mir_ref.h"
 
@@ -53,4 +58,4 @@ static float h_run_i2f (int f, uint64_t a, uint64_t b) { H_ARGS (2); args[0].u =
 static double h_run_i2d (int f, uint64_t a, uint64_t b) { H_ARGS (2); args[0].u = a; args[1].u = b; h_run (f, args, res); return res[0].d; }
 static long double h_run_i2ld (int f, uint64_t a, uint64_t b) { H_ARGS (2); args[0].u = a; args[1].u = b; h_run (f, args, res); return res[0].ld; }
 
-#include "c02_cases.h"
+#include H_CASES
